@@ -8,6 +8,6 @@ fail=0
 pick() { for f in $(ls -r $PWD/seeded/benign/$1/patch_on_*.diff 2>/dev/null) $PWD/seeded/benign/$1/patch.diff; do git -C $REPO apply --check $f 2>/dev/null && { echo $f; return; }; done; }
 run() { b=$1; shift; p=$(pick $b); echo "== $b ($(basename "${p:-none}"))"; if [ -z "$p" ]; then echo "no patch of $b applies to the current tree"; fail=1; return; fi
   out=$(tools/benign_check.sh $p "$@" 2>&1 | grep -v WARN); echo "$out"; echo "$out" | grep -qE "rc=[^0]|VIOLATION|INCONCLUSIVE" && fail=1; }
-for b in B1 B2 B5 B6; do run $b $POOL; done
-for b in B3 B4 B7 B8; do run $b $FARM; done
+for b in B1 B2 B5 B6 B9 B10; do run $b $POOL; done
+for b in B3 B4 B7 B8 B11 B12; do run $b $FARM; done
 exit $fail
